@@ -64,6 +64,31 @@ def gen_tables(rng, n, vi):
     return tables
 
 
+def structured_tables(rng, n, vi):
+    """tables built around one shape: a sequence s that is bound AND a proper prefix of a binding two or three keys longer,
+    single-key binds for the keys in between (so that the order in which left-over keys are dispatched again is visible), and a
+    macro bound to another key whose body walks into the long binding and then rules it out from INSIDE the macro"""
+    out = []
+    firsts = [A, X, CX] if vi else [A, X, CX, ESC]
+    while len(out) < n:
+        f = rng.choice(firsts)
+        mids = [rng.choice([A, B, X]) for _ in range(rng.choice([2, 2, 3]))]
+        last = rng.choice([A, B, X])
+        long_ = [f] + mids + [last]
+        other = rng.choice([k for k in (A, B, X, Y) if k != last])
+        mkey = rng.choice([k for k in (Y, 0x19) if k != other])
+        body = [f] + mids + [other] + ([rng.choice([A, B, X])] if rng.random() < 0.5 else [])
+        seqs = [[f], long_] + [[k] for k in sorted(set(mids + [other, last]) - {f})]
+        if mkey in body or any(mkey in q for q in seqs):
+            continue
+        t = []
+        for i, q in enumerate(seqs):
+            t.append({"seq": conv(q), "raw": list(q), "cmd": "p%d" % i, "macro": False, "body": []})
+        t.append({"seq": [mkey], "raw": [mkey], "cmd": "", "macro": True, "body": body})
+        out.append(t)
+    return out
+
+
 def alphabet(table):
     al = set()
     for e in table:
@@ -100,7 +125,10 @@ def run(rep, tier, seed):
     for km in MAIN_KM + LOCAL_KM:
         vi = km != "emacs"
         local = km in LOCAL_KM
-        for table in gen_tables(rng, ntab if not local else ntab // 3, vi):
+        tables = gen_tables(rng, ntab if not local else ntab // 3, vi)
+        if not local:
+            tables += structured_tables(rng, 12 if tier == "quick" else 150, vi)
+        for table in tables:
             if local:
                 # local table over its own keys, a main table with disjoint first keys, and the key that switches the local keymap on
                 main = [{"seq": [Y], "cmd": "m0", "macro": False, "body": []}, {"seq": [Y, Y], "cmd": "m1", "macro": False, "body": []}]
@@ -208,7 +236,7 @@ def run(rep, tier, seed):
                       (m["km"], m["mode"], json.dumps([(e["seq"], e["cmd"] or ("macro", e["body"])) for e in m["table"]]), json.dumps(ctx)[:500]),
                       {"kind": "dispatch", "case": cmap[cid], "meta": {k: v for k, v in m.items() if k != "steps"}, "rejected_line": ln,
                        "raw_event": {k: v for k, v in (raw.items() if isinstance(raw, dict) else []) if k != "stack"}})
-    rep.rule = ("bind tables of <= 4 sequences from a pool of 14 overlapping sequences over {a, b, x, ESC, C-x} (+ one macro binding), installed in "
+    rep.rule = ("bind tables of <= 4 sequences from a pool of 14 overlapping sequences over {a, b, x, ESC, C-x} (+ one macro binding), and tables built around a bound prefix of a 3-4 key longer binding with a macro that rules the longer binding out from inside its body, installed in "
                 "the real keymaps emacs, vi-insert, vi-command and the local keymaps vi-opp, vi-visual, menu-select; every key string up to "
                 "length %d over the table's alphabet plus an unbound key (sampled per table), typed one key per read and as one paste; "
                 "non-trivial = distinct (keymap, table, command that ran)" % maxlen)
